@@ -168,6 +168,49 @@ impl Server for RefServer {
     }
 }
 
+/// The real object-store server (hook constructor) behind the public `Server` trait, shared with the
+/// scenario runner so that its implicit-cleanup probability can be pinned before every sync.
+pub struct CloudBox(pub Rc<RefCell<taskchampion::verif::cloud::VerifCloudServer>>);
+
+#[async_trait(?Send)]
+impl Server for CloudBox {
+    async fn add_version(
+        &mut self,
+        parent_version_id: VersionId,
+        history_segment: HistorySegment,
+    ) -> TResult<(AddVersionResult, SnapshotUrgency)> {
+        let mut s = self.0.borrow_mut();
+        s.add_version(parent_version_id, history_segment).await
+    }
+    async fn get_child_version(&mut self, parent_version_id: VersionId) -> TResult<GetVersionResult> {
+        let mut s = self.0.borrow_mut();
+        s.get_child_version(parent_version_id).await
+    }
+    async fn add_snapshot(&mut self, version_id: VersionId, snapshot: Snapshot) -> TResult<()> {
+        let mut s = self.0.borrow_mut();
+        s.add_snapshot(version_id, snapshot).await
+    }
+    async fn get_snapshot(&mut self) -> TResult<Option<(VersionId, Snapshot)>> {
+        let mut s = self.0.borrow_mut();
+        s.get_snapshot().await
+    }
+}
+
+fn cloud_handles(
+    store: &taskchampion::verif::cloud::MemStore,
+    n: usize,
+) -> (Vec<Rc<RefCell<taskchampion::verif::cloud::VerifCloudServer>>>, Vec<Box<dyn Server>>) {
+    let mut raw = Vec::new();
+    let mut boxed: Vec<Box<dyn Server>> = Vec::new();
+    for i in 0..n {
+        let s = block_on(taskchampion::verif::cloud::VerifCloudServer::new(store, i, b"sec".to_vec())).expect("CloudServer::new");
+        let rc = Rc::new(RefCell::new(s));
+        raw.push(rc.clone());
+        boxed.push(Box::new(CloudBox(rc)));
+    }
+    (raw, boxed)
+}
+
 pub fn value_string(v: &Value) -> Option<String> {
     match v {
         Value::Null => None,
@@ -415,6 +458,15 @@ pub fn run(scn: &Value) -> Value {
             }) as Box<dyn Server>
         })
         .collect();
+    // object-store mode: every replica talks to the real CloudServer over one shared in-memory store
+    let cloud = scn.get("server").and_then(|s| s.as_str()) == Some("cloud");
+    let cstore = taskchampion::verif::cloud::MemStore::new(2_000_000_000, 100);
+    let mut craw = Vec::new();
+    if cloud {
+        let (raw, boxed) = cloud_handles(&cstore, nrep);
+        craw = raw;
+        servers = boxed;
+    }
     let mut results = Vec::new();
     let mut saved_undo: BTreeMap<usize, Operations> = BTreeMap::new();
     for step in scn["steps"].as_array().cloned().unwrap_or_default() {
@@ -428,12 +480,32 @@ pub fn run(scn: &Value) -> Value {
                 Ok(()) => json!({"ok": true, "storage_fault_fired": fired}),
                 Err(e) => json!({"err": e.to_string(), "storage_fault_fired": fired}),
             });
+        } else if step.get("new_handles").is_some() {
+            if cloud {
+                let (raw, boxed) = cloud_handles(&cstore, nrep);
+                craw = raw;
+                servers = boxed;
+            }
+            results.push(json!({"new_handles": true}));
         } else if let Some(r) = step.get("sync").and_then(|v| v.as_u64()) {
             let r = r as usize;
             let avoid = step.get("avoid_snapshots").and_then(|v| v.as_bool()).unwrap_or(false);
             let n0 = st.borrow().chain.len();
+            if cloud {
+                // no implicit cleanup unless the server itself asks for one during this sync
+                craw[r].borrow_mut().set_cleanup_probability(0);
+                let names: Vec<String> = cstore.dump().into_iter().map(|o| o.0).collect();
+                let keep: Vec<&str> = names.iter().map(|s| s.as_str()).collect();
+                cstore.clear_except(&keep);
+                if let Some(f) = step.get("fault") {
+                    if f["layer"].as_str() == Some("service") {
+                        cstore.add_fault(r, f["nth"].as_u64().unwrap_or(0), f["how"].as_str().unwrap_or("before"));
+                    }
+                }
+            }
             if let Some(f) = step.get("fault") {
-                if f["layer"].as_str() == Some("storage") {
+                if f["layer"].as_str() == Some("service") {
+                } else if f["layer"].as_str() == Some("storage") {
                     let mut p = plans[r].lock().unwrap();
                     p.armed = true;
                     p.count = 0;
@@ -552,6 +624,49 @@ pub fn run(scn: &Value) -> Value {
     let mut reps_out = Vec::new();
     for rep in reps.iter_mut() {
         reps_out.push(dump_replica(rep));
+    }
+    if cloud {
+        // the chain as served to a fresh client
+        let names: Vec<String> = cstore.dump().into_iter().map(|o| o.0).collect();
+        let keep: Vec<&str> = names.iter().map(|s| s.as_str()).collect();
+        cstore.clear_except(&keep);
+        let mut fresh = block_on(taskchampion::verif::cloud::VerifCloudServer::new(&cstore, nrep, b"sec".to_vec())).expect("CloudServer::new");
+        let mut chain_state = Tasks::new();
+        let mut versions = Vec::new();
+        let mut parent = Uuid::nil();
+        let mut walk_err = Value::Null;
+        for _ in 0..64 {
+            match block_on(fresh.get_child_version(parent)) {
+                Ok(GetVersionResult::Version {
+                    version_id,
+                    history_segment,
+                    ..
+                }) => {
+                    let doc: Value = serde_json::from_slice(&history_segment).unwrap_or(Value::Null);
+                    apply_version_json(&mut chain_state, &doc);
+                    versions.push(json!({"doc": abbreviate(&doc), "bytes": history_segment.len()}));
+                    parent = version_id;
+                }
+                Ok(GetVersionResult::NoSuchVersion) => break,
+                Err(e) => {
+                    walk_err = json!(e.to_string());
+                    break;
+                }
+            }
+        }
+        let latest = cstore
+            .dump()
+            .into_iter()
+            .find(|o| o.0 == "latest")
+            .map(|o| String::from_utf8_lossy(&o.1).to_string());
+        let end = if parent.is_nil() { None } else { Some(parent.as_simple().to_string()) };
+        return json!({
+            "steps": results,
+            "replicas": reps_out,
+            "server": {"versions": versions, "chain_state": tasks_json(&chain_state), "snapshots": [],
+                       "walk_error": walk_err, "latest_is_end_of_walk": latest == end,
+                       "objects": cstore.dump().len()},
+        });
     }
     let stb = st.borrow();
     let mut chain_state = Tasks::new();
